@@ -4,7 +4,7 @@ from checks import semcommon
 from lib import vlib
 
 RULE = ("programs: every binding form that can shadow a builtin name x 5 foldable builtins x 26 positions of binding and use; "
-        "every binary operator x 10 x 10 literal operands as a constant expression in 5 positions (returned, in a called function, "
+        "every binary operator (19) x 17 x 17 literal operands (ints, strings, bools, undefined, floats, uints, chars) as a constant expression in 5 positions (returned, in a called function, "
         "dead code, removed branch, non-constant variant); every literal kind as condition of if / ! / ternary / && / || / loop / else-if; "
         "each run with the optimizer off, at budgets 1..5 and default; all must equal the TLA+ reference semantics (which has no "
         "optimizer); a refusal is accepted only as an optimizer error naming the error the constant sub-expression raises; "
@@ -20,6 +20,11 @@ def run(ctx):
     res = ctx.path("c01-res.ndjson")
     ctx.vh("sem", out, res, ",".join(configs))
     n = 0
+    # what a constant expression itself does, outside the reference fragment: the optimizer-off run of the script that returns it
+    own = {}
+    for r in vlib.read_ndjson(res):
+        if r["fam"] == "fold" and r["id"]["pos"] == "ret":
+            own[(r["id"]["op"], r["id"]["a"], r["id"]["b"])] = r["got"]["noopt"]
     for r in vlib.read_ndjson(res):
         n += 1
         ctx.evaluations += len(r["got"])
@@ -43,9 +48,11 @@ def run(ctx):
             if v == want:
                 continue
             if r.get("mayrefuse") and k != "noopt" and v.startswith("COMPILE: Optimizer Error:"):
-                # refusal with the constant sub-expression's own error
+                # refusal with the constant sub-expression's own error; outside the reference fragment
+                # the error must be the one the optimizer-off run raises
                 names = ("ZeroDivisionError", "TypeError")
-                if any(nm in v for nm in names):
+                expr = own.get((r["id"].get("op"), r["id"].get("a"), r["id"].get("b")), "") if r["fam"] == "fold" else ""
+                if any(nm in v and (r.get("refknown", True) or nm in expr) for nm in names):
                     continue
             bad[k] = v
         if bad:
